@@ -4,6 +4,7 @@ package record
 
 import (
 	"bytes"
+	"crypto/sha256"
 	"encoding/hex"
 	"encoding/json"
 	"fmt"
@@ -60,6 +61,10 @@ type Config struct {
 	PGovNoVote      float64 `json:"p_gov_no_vote"`
 	PGovExpedited   float64 `json:"p_gov_expedited"`
 	PGovFavourite   float64 `json:"p_gov_favourite"`
+	// GenesisRecords: the chain starts with this many records (all alike: what a passed
+	// proposal creating Pool[0] stores), chosen just below a power of two: a long history
+	// behind the chain, so that the creations of the run cross a counter boundary
+	GenesisRecords int `json:"genesis_records,omitempty"`
 }
 
 type rec struct {
@@ -159,6 +164,18 @@ func (m *Module) Configure(w *engine.World, r *engine.Rand) any {
 		PGovFavourite: 0.5 + 0.5*r.Float(),
 	}
 	c.GovExpeditedSec = 2 + r.Int63n(c.GovVotingSec-2)
+	if w.Focus == Prop {
+		// (a stream of its own: a seed's run is otherwise what it was before this arm existed)
+		gr := engine.NewRand(engine.Mix(w.Sched.Seed, "record-genesis", 0))
+		if gr.Bool(0.07) {
+			boundary := 256
+			if gr.Bool(0.3) {
+				boundary = 65536
+			}
+			c.GenesisRecords = boundary - 1 - gr.Intn(5)
+			c.PGov, c.PGovFavourite, c.PGovNoVote = 0.25, 1, 0
+		}
+	}
 	n := 1 + r.Intn(5)
 	for i := 0; i < n; i++ {
 		var set []Content
@@ -207,10 +224,25 @@ func (m *Module) Setup(w *engine.World) {
 // Quorum and thresholds keep their defaults: actor 0 holds the whole bonded stake (genesis
 // delegation), so its YES decides.
 func (m *Module) Genesis(w *engine.World, n *engine.Node, gs simapp.GenesisState) {
+	cdc := n.App.AppCodec()
+	if m.cfg.GenesisRecords > 0 {
+		var rg rectypes.GenesisState
+		cdc.MustUnmarshalJSON(gs[rectypes.ModuleName], &rg)
+		one := rectypes.Record{TxHash: noTxHash, Creator: m.govAddr}
+		for _, c := range m.cfg.Pool[0] {
+			one.Contents = append(one.Contents, rectypes.Content{Digest: c.Digest, DigestAlgo: c.Algo, URI: c.URI, Meta: c.Meta})
+		}
+		for i := 0; i < m.cfg.GenesisRecords; i++ {
+			rg.Records = append(rg.Records, one)
+		}
+		if err := rectypes.ValidateGenesis(rg); err != nil {
+			engine.Fatal("record: generated invalid genesis: %v", err)
+		}
+		gs[rectypes.ModuleName] = cdc.MustMarshalJSON(&rg)
+	}
 	if m.cfg.GovVotingSec <= 0 {
 		return
 	}
-	cdc := n.App.AppCodec()
 	var g govv1.GenesisState
 	cdc.MustUnmarshalJSON(gs[govtypes.ModuleName], &g)
 	vp := time.Duration(m.cfg.GovVotingSec) * time.Second
@@ -223,6 +255,41 @@ func (m *Module) Genesis(w *engine.World, n *engine.Node, gs simapp.GenesisState
 		engine.Fatal("record: generated invalid gov params: %v", err)
 	}
 	gs[govtypes.ModuleName] = cdc.MustMarshalJSON(&g)
+}
+
+// noTxHash is the transaction hash field of the genesis records: the sha256 of no bytes, in
+// the upper-case hex form the module's records carry (any fixed string would do: a genesis
+// file states the field).
+var noTxHash = strings.ToUpper(hex.EncodeToString(sha256Of(nil)))
+
+func sha256Of(b []byte) []byte { h := sha256.Sum256(b); return h[:] }
+
+// Started: the records the chain starts with are part of the history: their ids are taken
+// and they must read back unchanged for ever like any other (a sample is read every block).
+func (m *Module) Started(w *engine.World) {
+	if m.cfg.GenesisRecords == 0 || len(m.recs) > 0 {
+		return
+	}
+	it := w.Node.K.Record.RecordsIterator(w.Node.Ctx())
+	defer it.Close()
+	n := 0
+	for ; it.Valid(); it.Next() {
+		id := hex.EncodeToString(it.Key()[len(rectypes.RecordKey):])
+		m.recs[id] = &rec{ID: id, Contents: m.cfg.Pool[0], Creator: m.govAddr, Height: 0, OpID: -1, Gov: true}
+		if n%(m.cfg.GenesisRecords/5+1) == 0 {
+			m.recs[id].Order = len(m.order)
+			m.order = append(m.order, id)
+		}
+		n++
+	}
+	w.Hit("record.genesis_with_records")
+	if m.cfg.GenesisRecords > 60000 {
+		w.Hit("record.genesis_with_records_64k")
+	}
+	if n != m.cfg.GenesisRecords {
+		// "two creations never receive the same id": the import gave two records one id
+		w.Violate(Prop, "id/duplicate/genesis", "the genesis carries %d records; after import the store holds %d", m.cfg.GenesisRecords, n)
+	}
 }
 
 // ---- operations ------------------------------------------------------------------------
